@@ -292,14 +292,21 @@ func replayCli(args []string) (any, error) {
 		}
 		cmd = exec.Command(bin, cliArgs...)
 		cmd.Dir = dir
-		cmd.Env = append(os.Environ(), "TZ=UTC")
+		// the process time zone is the host's business: the instant that is printed must not depend on it (zones rotate over the
+		// cases; the one script that reads a zone-less date - its meaning is the local zone's - stays in UTC, where the
+		// library result of this process is computed)
+		tz := []string{"UTC", "Asia/Shanghai", "America/St_Johns", "Pacific/Chatham"}[sum.Evaluations%4]
+		if v.Cfg.Kind == "setTime" {
+			tz = "UTC"
+		}
+		cmd.Env = append(os.Environ(), "TZ="+tz)
 		start := time.Now()
 		outB, runErr := cmd.CombinedOutput()
 		stdout := string(outB)
 		sum.Evaluations++
 		sum.Distinct++
 		sig := fmt.Sprintf("cli:%s:%s:%s:%s", v.Cfg.Mode, v.Cfg.Input, v.Cfg.Output, v.Cfg.Kind)
-		detail := map[string]any{"cfg": v.Cfg, "args": cliArgs, "script": main}
+		detail := map[string]any{"cfg": v.Cfg, "args": cliArgs, "script": main, "TZ": tz}
 		bad := func(p string) {
 			detail["problem"] = p
 			o := stdout
